@@ -25,7 +25,7 @@ import (
 // C11Plan: a history, channel behaviours and injected store failures.
 type C11Plan struct {
 	Hist     *hist.Plan `json:"hist"`
-	Channels []string   `json:"channels"` // ok | slow | block | wsok | wserr | webhook | deadwebhook
+	Channels []string   `json:"channels"` // ok | slow | block | wsok | wserr | webhook | deadwebhook | hungwebhook
 	// "deadwebhook" (only together with "webhook"): another webhook, registered BEFORE the healthy one, whose target always
 	// answers 500; with max_tries = 1 it is switched off by the first event - the healthy webhook must keep receiving
 	FailAt []int `json:"failAt"` // write indices (1-based) that fail
@@ -125,9 +125,10 @@ func runC11(p *C11Plan) (*stats.Case, error) {
 		failSet[k] = true
 	}
 	sc := &scriptedClient{next: func() int { return 0 }, byURL: func(u string) (int, bool) { return 3, strings.HasSuffix(u, "/dead") }}
-	withDead := false
+	withDead, withHung := false, false
 	for _, c := range p.Channels {
 		withDead = withDead || c == "deadwebhook"
+		withHung = withHung || c == "hungwebhook"
 	}
 	maxTries := 0
 	if withDead {
@@ -138,6 +139,13 @@ func runC11(p *C11Plan) (*stats.Case, error) {
 		return nil, fmt.Errorf("infra: %w", err)
 	}
 	release := make(chan struct{})
+	// a webhook receiver that accepts the request and does not answer (until the end of the case)
+	sc.hang = func(u string) <-chan struct{} {
+		if strings.HasSuffix(u, "/hung") {
+			return release
+		}
+		return nil
+	}
 	released := false
 	doRelease := func() {
 		if !released {
@@ -148,7 +156,7 @@ func runC11(p *C11Plan) (*stats.Case, error) {
 	defer func() { doRelease(); time.Sleep(2 * time.Millisecond); r.Close() }()
 	var recs []*recChan
 	var pubs []*recPublisher
-	hasWebhook, hasBlock, hasFailing := false, false, false
+	hasWebhook, hasBlock, hasFailing, hungRegistered := false, false, false, false
 	for _, c := range p.Channels {
 		switch c {
 		case "ok", "slow", "block":
@@ -161,8 +169,19 @@ func runC11(p *C11Plan) (*stats.Case, error) {
 			pubs = append(pubs, pb)
 			r.S.Services.Notifier.AddChannel(notification.NewWebsocketChannel(r.S.Log, pb, r.S.Cfg.Websocket))
 			hasFailing = hasFailing || c == "wserr"
+		case "hungwebhook":
+			// the webhooks channel consists of one webhook whose receiver never answers: the channel as a whole hangs
+			// (webhooks are served one after the other, so a healthy webhook behind it is not expected to be served)
+			if !hungRegistered {
+				hungRegistered = true
+				if _, err := r.S.Services.Webhooks.CreateWebhook("bearer", "", "t", "http://hook.invalid/hung"); err != nil {
+					return nil, fmt.Errorf("infra: %w", err)
+				}
+				r.S.Services.Notifier.AddChannel(r.S.Services.Webhooks)
+				hasBlock = true
+			}
 		case "webhook":
-			if !hasWebhook {
+			if !hasWebhook && !withHung {
 				hasWebhook = true
 				if withDead {
 					if _, err := r.S.Services.Webhooks.CreateWebhook("bearer", "", "t", "http://hook.invalid/dead"); err != nil {
@@ -260,16 +279,14 @@ func runC11(p *C11Plan) (*stats.Case, error) {
 			sc.mu.Lock()
 			n := 0
 			for _, c := range sc.calls {
-				if !strings.HasSuffix(c.URL, "/dead") {
+				if !strings.HasSuffix(c.URL, "/dead") && !strings.HasSuffix(c.URL, "/hung") {
 					n++
 				}
 			}
 			upd(n)
 			sc.mu.Unlock()
 		}
-		if min == 1<<30 {
-			min = 0
-		}
+		// (no channel that can be counted, e.g. only a hung webhook: min stays huge and the drain ends at once)
 		return
 	}
 	deadline := time.Now().Add(10 * time.Second)
@@ -334,6 +351,9 @@ func runC11(p *C11Plan) (*stats.Case, error) {
 				deadCalls++
 				continue
 			}
+			if strings.HasSuffix(c.URL, "/hung") {
+				continue
+			}
 			var e domains.HeaderEvent
 			if err := json.Unmarshal([]byte(c.Body), &e); err != nil {
 				return nil, fmt.Errorf("webhook body unparsable: %s", c.Body)
@@ -355,7 +375,8 @@ func runC11(p *C11Plan) (*stats.Case, error) {
 	}
 	tr := model.NewTree(hist.Genesis())
 	cl := map[string]int64{"plans": 1, "stored": int64(len(expected)), "duplicates": int64(dups), "forbidden": int64(forb), "failed_stores": int64(failed),
-		"with_blocking_channel": b2i(hasBlock), "with_failing_channel": b2i(hasFailing), "with_webhook_channel": b2i(hasWebhook), "with_dead_webhook_registered_first": b2i(hasWebhook && withDead), "channels": int64(len(p.Channels))}
+		"with_blocking_channel": b2i(hasBlock), "with_failing_channel": b2i(hasFailing), "with_webhook_channel": b2i(hasWebhook), "with_dead_webhook_registered_first": b2i(hasWebhook && withDead), "with_hung_webhook": b2i(withHung),
+		"with_64_or_more_stored_while_a_channel_hangs": b2i(hasBlock && len(expected) >= 64), "channels": int64(len(p.Channels))}
 	_ = tr
 	nt := (dups > 0 || forb > 0 || failed > 0) && (hasBlock || hasFailing)
 	return &stats.Case{Sig: stats.Sig(planSig(p.Hist), fmt.Sprint(p.Channels), fmt.Sprint(p.FailAt)), Nontrivial: nt, Classes: cl, Sample: p}, nil
@@ -365,10 +386,23 @@ var propC11 = Prop[*C11Plan]{
 	ID:   "C11",
 	Name: "TestC11",
 	Gen: func(t *rapid.T) *C11Plan {
-		p := &C11Plan{Hist: hist.Gen(t, hist.GenOpts{MaxSpecs: quickThorough(20, 40), MinSpecs: 2})}
+		// every 16th plan is a long one (70-200 headers) with a channel that never returns: a bounded pool of pending
+		// deliveries must not stall ingestion or the other channels either
+		long := 0.0
+		if rapid.Uint32().Draw(t, "longplan")%16 == 7 { // (rapid's small-range draws lean towards 0: take low bits of a wide draw)
+			long = 1
+		}
+		p := &C11Plan{Hist: hist.Gen(t, hist.GenOpts{MaxSpecs: quickThorough(20, 40), MinSpecs: 2, LongShare: long, LongMin: 70, LongMax: 200})}
 		n := rapid.IntRange(2, 5).Draw(t, "nch")
 		for i := 0; i < n; i++ {
-			p.Channels = append(p.Channels, rapid.SampledFrom([]string{"ok", "ok", "slow", "block", "wsok", "wserr", "webhook", "webhook", "deadwebhook"}).Draw(t, "ch"))
+			p.Channels = append(p.Channels, rapid.SampledFrom([]string{"ok", "ok", "slow", "block", "wsok", "wserr", "webhook", "webhook", "deadwebhook", "hungwebhook"}).Draw(t, "ch"))
+		}
+		if len(p.Hist.Specs) >= 64 {
+			if rapid.Bool().Draw(t, "hungkind") {
+				p.Channels[0] = "block"
+			} else {
+				p.Channels[0] = "hungwebhook"
+			}
 		}
 		nf := rapid.IntRange(0, 2).Draw(t, "nfail")
 		for i := 0; i < nf; i++ {
